@@ -329,10 +329,24 @@ func (env *e2eEnv) start(procMW []frugal.ServiceMiddleware, provMW []frugal.Serv
 			return false
 		}
 		var err error
-		if env.srvConn, err = env.b.Connect("server"); err != nil {
-			return err
-		}
-		if env.cliConn, err = env.b.Connect("client"); err != nil {
+		early := env.rc.Tape.Intn("earlybuild", 5) == 4
+		if early {
+			// the service starts before NATS is reachable (nats.RetryOnFailedConnect): its server is built on a
+			// connection that is not established yet, and serves once it is
+			env.rc.Fault("nats-server-built-before-the-broker-is-reachable")
+			env.b.GoDown()
+			saved := env.b.ConnOptions
+			env.b.ConnOptions = append(saved[:len(saved):len(saved)], nats.RetryOnFailedConnect(true), func(o *nats.Options) error {
+				o.AllowReconnect, o.MaxReconnect, o.ReconnectWait, o.NoRandomize = true, -1, 20*time.Millisecond, true
+				o.ReconnectJitter, o.ReconnectJitterTLS = 0, 0
+				return nil
+			})
+			env.srvConn, err = env.b.Connect("server")
+			env.b.ConnOptions = saved
+			if err != nil {
+				return err
+			}
+		} else if env.srvConn, err = env.b.Connect("server"); err != nil {
 			return err
 		}
 		w := env.natsWorkers
@@ -348,6 +362,13 @@ func (env *e2eEnv) start(procMW []frugal.ServiceMiddleware, provMW []frugal.Serv
 		}
 		srv := nb.Build()
 		env.srv = srv
+		if early {
+			env.b.ComeBack()
+			settle(200 * time.Millisecond)
+		}
+		if env.cliConn, err = env.b.Connect("client"); err != nil {
+			return err
+		}
 		env.serveDone = make(chan struct{}, 1)
 		env.s.Go("serve", func() {
 			srv.Serve()
